@@ -3,15 +3,19 @@
 
    One state object (botpHOTP / botpTOTP / botpOCRA bundle).  The abstract state is what the
    header says the object holds:
-     mode   which bundle the object was initialised for ("off" = not initialised / unusable),
-     digit  number of digits of the passwords,
-     key    the key,
-     ctr    the 8-octet big-endian counter of HOTP / OCRA (<<>> = not defined: no StepS yet, TOTP,
+     vMode  which bundle the object was initialised for ("off" = not initialised / unusable),
+     vDigit number of digits of the passwords,
+     vKey   the key,
+     vCtr   the 8-octet big-endian counter of HOTP / OCRA (<<>> = not defined: no StepS yet, TOTP,
             or an OCRA suite without the counter),
-     cset   StepS was called after the last Start (session data are set),
-     suite, pr, sp, ss   OCRA: the suite string, its parse, the session data P and S that the
+     vSet   StepS was called after the last Start (session data are set),
+     vSuite, vPr, vP, vS   OCRA: the suite string, its parse, the session data P and S that the
             suite uses (<<>> when it does not),
-     res    what the last call returned: [op, otp, ok, ctr].
+     vRes   what the last call returned: [op, otp, ok, ctr].
+   (The v-prefix is not decoration: TLC decides whether a definition is constant-level -- and so
+    pre-evaluates it once -- by NAME; a variable called key / digit / ctr / n makes every operator
+    with a parameter of that name (HMAC(key, X), Zeros(n), ...) look state-dependent, and tables of
+    their values are then recomputed at every reference.)
 
    One action per function of the header, with the documented effect:
      botp-hotp: "При выработке, а также при успешной проверке пароля в функциях botpHOTPStepR(),
@@ -38,133 +42,133 @@ EXTENDS Botp
 CONSTANTS OtpH(_, _, _),               \* (digit, key, 8 octets) -> password  (HOTP; TOTP on the time octets)
           OtpO(_, _, _, _, _, _, _)    \* (suite, key, q, ctr, p, s, 8 time octets) -> password (OCRA)
 
-VARIABLES mode, digit, key, ctr, cset, suite, pr, sp, ss, res
-vars == <<mode, digit, key, ctr, cset, suite, pr, sp, ss, res>>
-obj  == <<mode, digit, key, ctr, cset, suite, pr, sp, ss>>       \* the object itself (without the last result)
+VARIABLES vMode, vDigit, vKey, vCtr, vSet, vSuite, vPr, vP, vS, vRes
+vars == <<vMode, vDigit, vKey, vCtr, vSet, vSuite, vPr, vP, vS, vRes>>
+obj  == <<vMode, vDigit, vKey, vCtr, vSet, vSuite, vPr, vP, vS>>       \* the object itself (without the last result)
 
 TimeErrL == <<65535, 65535, 65535, 65535>>      \* TIME_ERR = (tm_time_t)-1 as 16-bit limbs
 Res(op, o, ok, c) == [op |-> op, otp |-> o, ok |-> ok, ctr |-> c]
 
 \* the counter is defined (and projected by StepG)
 HasCtrOf(m, cs, p) == (m = "hotp" /\ cs) \/ (m = "ocra" /\ cs /\ p.ctr)
-HasCtr == HasCtrOf(mode, cset, pr)
+HasCtr == HasCtrOf(vMode, vSet, vPr)
 
-Init == /\ mode = "off" /\ digit = 0 /\ key = <<>> /\ ctr = <<>> /\ cset = FALSE
-        /\ suite = <<>> /\ pr = NoParse /\ sp = <<>> /\ ss = <<>>
-        /\ res = Res("none", <<>>, TRUE, <<>>)
+Init == /\ vMode = "off" /\ vDigit = 0 /\ vKey = <<>> /\ vCtr = <<>> /\ vSet = FALSE
+        /\ vSuite = <<>> /\ vPr = NoParse /\ vP = <<>> /\ vS = <<>>
+        /\ vRes = Res("none", <<>>, TRUE, <<>>)
 
 \* ---------------------------------------------------------------- HOTP
 HotpStart(d, k) ==
   /\ d \in HotpDigits
-  /\ mode' = "hotp" /\ digit' = d /\ key' = k /\ ctr' = <<>> /\ cset' = FALSE
-  /\ suite' = <<>> /\ pr' = NoParse /\ sp' = <<>> /\ ss' = <<>>
-  /\ res' = Res("HotpStart", <<>>, TRUE, <<>>)
+  /\ vMode' = "hotp" /\ vDigit' = d /\ vKey' = k /\ vCtr' = <<>> /\ vSet' = FALSE
+  /\ vSuite' = <<>> /\ vPr' = NoParse /\ vP' = <<>> /\ vS' = <<>>
+  /\ vRes' = Res("HotpStart", <<>>, TRUE, <<>>)
 
 HotpStepS(c) ==
-  /\ mode = "hotp" /\ Len(c) = 8
-  /\ ctr' = c /\ cset' = TRUE
-  /\ res' = Res("HotpStepS", <<>>, TRUE, <<>>)
-  /\ UNCHANGED <<mode, digit, key, suite, pr, sp, ss>>
+  /\ vMode = "hotp" /\ Len(c) = 8
+  /\ vCtr' = c /\ vSet' = TRUE
+  /\ vRes' = Res("HotpStepS", <<>>, TRUE, <<>>)
+  /\ UNCHANGED <<vMode, vDigit, vKey, vSuite, vPr, vP, vS>>
 
 HotpStepR ==
-  /\ mode = "hotp" /\ cset
-  /\ res' = Res("HotpStepR", OtpH(digit, key, ctr), TRUE, <<>>)
-  /\ ctr' = CtrNext(ctr)
-  /\ UNCHANGED <<mode, digit, key, cset, suite, pr, sp, ss>>
+  /\ vMode = "hotp" /\ vSet
+  /\ vRes' = Res("HotpStepR", OtpH(vDigit, vKey, vCtr), TRUE, <<>>)
+  /\ vCtr' = CtrNext(vCtr)
+  /\ UNCHANGED <<vMode, vDigit, vKey, vSet, vSuite, vPr, vP, vS>>
 
 HotpStepV(o) ==
-  /\ mode = "hotp" /\ cset
-  /\ LET good == o = OtpH(digit, key, ctr) IN
-       /\ res' = Res("HotpStepV", <<>>, good, <<>>)
-       /\ ctr' = IF good THEN CtrNext(ctr) ELSE ctr
-  /\ UNCHANGED <<mode, digit, key, cset, suite, pr, sp, ss>>
+  /\ vMode = "hotp" /\ vSet
+  /\ LET good == o = OtpH(vDigit, vKey, vCtr) IN
+       /\ vRes' = Res("HotpStepV", <<>>, good, <<>>)
+       /\ vCtr' = IF good THEN CtrNext(vCtr) ELSE vCtr
+  /\ UNCHANGED <<vMode, vDigit, vKey, vSet, vSuite, vPr, vP, vS>>
 
 HotpStepG ==
-  /\ mode = "hotp" /\ cset
-  /\ res' = Res("HotpStepG", <<>>, TRUE, ctr)
+  /\ vMode = "hotp" /\ vSet
+  /\ vRes' = Res("HotpStepG", <<>>, TRUE, vCtr)
   /\ UNCHANGED obj
 
 \* ---------------------------------------------------------------- TOTP (t: four 16-bit limbs)
 TotpStart(d, k) ==
   /\ d \in HotpDigits
-  /\ mode' = "totp" /\ digit' = d /\ key' = k /\ ctr' = <<>> /\ cset' = FALSE
-  /\ suite' = <<>> /\ pr' = NoParse /\ sp' = <<>> /\ ss' = <<>>
-  /\ res' = Res("TotpStart", <<>>, TRUE, <<>>)
+  /\ vMode' = "totp" /\ vDigit' = d /\ vKey' = k /\ vCtr' = <<>> /\ vSet' = FALSE
+  /\ vSuite' = <<>> /\ vPr' = NoParse /\ vP' = <<>> /\ vS' = <<>>
+  /\ vRes' = Res("TotpStart", <<>>, TRUE, <<>>)
 
 TotpStepR(t) ==
-  /\ mode = "totp" /\ t # TimeErrL
-  /\ res' = Res("TotpStepR", OtpH(digit, key, TimeBE(t)), TRUE, <<>>)
+  /\ vMode = "totp" /\ t # TimeErrL
+  /\ vRes' = Res("TotpStepR", OtpH(vDigit, vKey, TimeBE(t)), TRUE, <<>>)
   /\ UNCHANGED obj
 
 TotpStepV(o, t) ==
-  /\ mode = "totp" /\ t # TimeErrL
-  /\ res' = Res("TotpStepV", <<>>, o = OtpH(digit, key, TimeBE(t)), <<>>)
+  /\ vMode = "totp" /\ t # TimeErrL
+  /\ vRes' = Res("TotpStepV", <<>>, o = OtpH(vDigit, vKey, TimeBE(t)), <<>>)
   /\ UNCHANGED obj
 
 \* ---------------------------------------------------------------- OCRA
 OcraStart(u, k) ==
   LET p == SuiteParse(u) IN
-  /\ res' = Res("OcraStart", <<>>, p.ok, <<>>)
+  /\ vRes' = Res("OcraStart", <<>>, p.ok, <<>>)
   /\ IF p.ok
-     THEN /\ mode' = "ocra" /\ digit' = p.digit /\ key' = k /\ suite' = u /\ pr' = p
-     ELSE /\ mode' = "off" /\ digit' = 0 /\ key' = <<>> /\ suite' = <<>> /\ pr' = NoParse    \* the object is unusable
-  /\ ctr' = <<>> /\ cset' = FALSE /\ sp' = <<>> /\ ss' = <<>>
+     THEN /\ vMode' = "ocra" /\ vDigit' = p.digit /\ vKey' = k /\ vSuite' = u /\ vPr' = p
+     ELSE /\ vMode' = "off" /\ vDigit' = 0 /\ vKey' = <<>> /\ vSuite' = <<>> /\ vPr' = NoParse    \* the object is unusable
+  /\ vCtr' = <<>> /\ vSet' = FALSE /\ vP' = <<>> /\ vS' = <<>>
 
-OcraNeedsS == pr.ctr \/ pr.plen > 0 \/ pr.slen > 0
-OcraReady == mode = "ocra" /\ (cset \/ ~OcraNeedsS)
-OcraArgsOk(q, t) == OCRAQOk(pr, q) /\ (pr.ts # 0 => t # TimeErrL)
-OcraVal(q, t) == OtpO(suite, key, q, ctr, sp, ss, TimeBE(t))
+OcraNeedsS == vPr.ctr \/ vPr.plen > 0 \/ vPr.slen > 0
+OcraReady == vMode = "ocra" /\ (vSet \/ ~OcraNeedsS)
+OcraArgsOk(q, t) == OCRAQOk(vPr, q) /\ (vPr.ts # 0 => t # TimeErrL)
+OcraVal(q, t) == OtpO(vSuite, vKey, q, vCtr, vP, vS, TimeBE(t))
 
-\* c, p, s: what the caller passes; only the parameters the suite uses are taken
+\* c, p, s: what the caller passes; only the parameters the vSuite uses are taken
 OcraStepS(c, p, s) ==
-  /\ mode = "ocra"
-  /\ pr.ctr => Len(c) = 8
-  /\ Len(p) >= pr.plen /\ Len(s) >= pr.slen
-  /\ ctr' = IF pr.ctr THEN c ELSE <<>>
-  /\ sp' = TakeN(p, pr.plen) /\ ss' = TakeN(s, pr.slen)
-  /\ cset' = TRUE
-  /\ res' = Res("OcraStepS", <<>>, TRUE, <<>>)
-  /\ UNCHANGED <<mode, digit, key, suite, pr>>
+  /\ vMode = "ocra"
+  /\ vPr.ctr => Len(c) = 8
+  /\ Len(p) >= vPr.plen /\ Len(s) >= vPr.slen
+  /\ vCtr' = IF vPr.ctr THEN c ELSE <<>>
+  /\ vP' = TakeN(p, vPr.plen) /\ vS' = TakeN(s, vPr.slen)
+  /\ vSet' = TRUE
+  /\ vRes' = Res("OcraStepS", <<>>, TRUE, <<>>)
+  /\ UNCHANGED <<vMode, vDigit, vKey, vSuite, vPr>>
 
 OcraStepR(q, t) ==
   /\ OcraReady /\ OcraArgsOk(q, t)
-  /\ res' = Res("OcraStepR", OcraVal(q, t), TRUE, <<>>)
-  /\ ctr' = IF pr.ctr THEN CtrNext(ctr) ELSE ctr
-  /\ UNCHANGED <<mode, digit, key, cset, suite, pr, sp, ss>>
+  /\ vRes' = Res("OcraStepR", OcraVal(q, t), TRUE, <<>>)
+  /\ vCtr' = IF vPr.ctr THEN CtrNext(vCtr) ELSE vCtr
+  /\ UNCHANGED <<vMode, vDigit, vKey, vSet, vSuite, vPr, vP, vS>>
 
 OcraStepV(o, q, t) ==
   /\ OcraReady /\ OcraArgsOk(q, t)
   /\ LET good == o = OcraVal(q, t) IN
-       /\ res' = Res("OcraStepV", <<>>, good, <<>>)
-       /\ ctr' = IF good /\ pr.ctr THEN CtrNext(ctr) ELSE ctr
-  /\ UNCHANGED <<mode, digit, key, cset, suite, pr, sp, ss>>
+       /\ vRes' = Res("OcraStepV", <<>>, good, <<>>)
+       /\ vCtr' = IF good /\ vPr.ctr THEN CtrNext(vCtr) ELSE vCtr
+  /\ UNCHANGED <<vMode, vDigit, vKey, vSet, vSuite, vPr, vP, vS>>
 
-\* without a counter in the suite the octets returned by StepG are not specified (res.ctr = <<>>)
+\* without a counter in the suite the octets returned by StepG are not specified (vRes.ctr = <<>>)
 OcraStepG ==
-  /\ mode = "ocra" /\ cset
-  /\ res' = Res("OcraStepG", <<>>, TRUE, ctr)
+  /\ vMode = "ocra" /\ vSet
+  /\ vRes' = Res("OcraStepG", <<>>, TRUE, vCtr)
   /\ UNCHANGED obj
 
 \* ---------------------------------------------------------------- relocation of the object
-Move == /\ mode # "off"
-        /\ res' = Res("Move", <<>>, TRUE, <<>>)
+Move == /\ vMode # "off"
+        /\ vRes' = Res("Move", <<>>, TRUE, <<>>)
         /\ UNCHANGED obj
 
 -----------------------------------------------------------------------------
 \* ---- properties of the specification (checked by TLC on every explored history)
 IsDigits(o) == \A i \in 1..Len(o) : o[i] >= 48 /\ o[i] <= 57
 TypeOK ==
-  /\ mode \in {"off", "hotp", "totp", "ocra"}
-  /\ cset \in BOOLEAN /\ res.ok \in BOOLEAN
-  /\ mode \in {"hotp", "totp"} => digit \in HotpDigits
-  /\ mode = "ocra" => (pr.ok /\ digit = pr.digit /\ digit \in 4..9)
-  /\ IsOctets(key) /\ IsOctets(ctr) /\ IsOctets(sp) /\ IsOctets(ss)
+  /\ vMode \in {"off", "hotp", "totp", "ocra"}
+  /\ vSet \in BOOLEAN /\ vRes.ok \in BOOLEAN
+  /\ vMode \in {"hotp", "totp"} => vDigit \in HotpDigits
+  /\ vMode = "ocra" => (vPr.ok /\ vDigit = vPr.digit /\ vDigit \in 4..9)
+  /\ IsOctets(vKey) /\ IsOctets(vCtr) /\ IsOctets(vP) /\ IsOctets(vS)
 \* the counter has 8 octets exactly when it is defined
-CtrShape == Len(ctr) = (IF HasCtr THEN 8 ELSE 0)
+CtrShape == Len(vCtr) = (IF HasCtr THEN 8 ELSE 0)
 \* a generated password has the announced number of decimal digits
-OtpShape == res.op \in {"HotpStepR", "TotpStepR", "OcraStepR"} => (Len(res.otp) = digit /\ IsDigits(res.otp))
-\* only the suite's session data are kept
-SessShape == mode = "ocra" => (Len(sp) = (IF cset THEN pr.plen ELSE 0) /\ Len(ss) = (IF cset THEN pr.slen ELSE 0))
+OtpShape == vRes.op \in {"HotpStepR", "TotpStepR", "OcraStepR"} => (Len(vRes.otp) = vDigit /\ IsDigits(vRes.otp))
+\* only the vSuite's session data are kept
+SessShape == vMode = "ocra" => (Len(vP) = (IF vSet THEN vPr.plen ELSE 0) /\ Len(vS) = (IF vSet THEN vPr.slen ELSE 0))
 
 StartOps == {"HotpStart", "TotpStart", "OcraStart"}
 SetOps   == {"HotpStepS", "OcraStepS"}
@@ -172,19 +176,19 @@ GenOps   == {"HotpStepR", "OcraStepR"}
 VerOps   == {"HotpStepV", "TotpStepV", "OcraStepV"}
 \* action properties (of one step <<vars, vars'>>)
 \* a failed verification leaves the object as it was
-A_FailKeeps == (res'.op \in VerOps /\ ~res'.ok) => UNCHANGED obj
+A_FailKeeps == (vRes'.op \in VerOps /\ ~vRes'.ok) => UNCHANGED obj
 \* the counter changes only by StepS / Start, or by exactly one increment in StepR / a successful StepV
-A_CtrMoves == (ctr' # ctr) => \/ res'.op \in (StartOps \cup SetOps)
-                              \/ /\ ctr' = CtrNext(ctr)
-                                 /\ res'.op \in GenOps \/ (res'.op \in VerOps /\ res'.ok)
+A_CtrMoves == (vCtr' # vCtr) => \/ vRes'.op \in (StartOps \cup SetOps)
+                              \/ /\ vCtr' = CtrNext(vCtr)
+                                 /\ vRes'.op \in GenOps \/ (vRes'.op \in VerOps /\ vRes'.ok)
 \* ... and it does change there (when defined): generation and successful verification consume the counter
-A_Consumes == ((res'.op \in GenOps \/ (res'.op \in {"HotpStepV", "OcraStepV"} /\ res'.ok)) /\ HasCtr)
-                => ctr' = CtrNext(ctr)
+A_Consumes == ((vRes'.op \in GenOps \/ (vRes'.op \in {"HotpStepV", "OcraStepV"} /\ vRes'.ok)) /\ HasCtr)
+                => vCtr' = CtrNext(vCtr)
 \* StepG and Move are observations
-A_GetPure == res'.op \in {"HotpStepG", "OcraStepG", "Move"} => UNCHANGED obj
+A_GetPure == vRes'.op \in {"HotpStepG", "OcraStepG", "Move"} => UNCHANGED obj
 \* StepG returns the counter
-A_GetCtr == res'.op \in {"HotpStepG", "OcraStepG"} => res'.ctr = ctr
+A_GetCtr == vRes'.op \in {"HotpStepG", "OcraStepG"} => vRes'.ctr = vCtr
 \* generator / verifier synchronisation: a verifier in the pre-state of a generation step accepts the
 \* generated password and arrives at the generator's counter
-A_Sync == (res'.op = "HotpStepR" => res'.otp = OtpH(digit, key, ctr))
+A_Sync == (vRes'.op = "HotpStepR" => vRes'.otp = OtpH(vDigit, vKey, vCtr))
 =============================================================================
